@@ -16,56 +16,56 @@ fn hist1() -> Histogram {
     }
 }
 
-fn history(n: usize) {
+/// reference state: shared totals and the pending local batch
+struct Model { sc: u64, ss: f64, sb: u64, lc: u64, ls: f64, lb: u64 }
+/// one operation of a history: 0 observe(v), 1 local observe(v), 2 local flush, 3 collect,
+/// 4 get_sample_count, 5 get_sample_sum
+fn apply(h: &Histogram, l: &LocalHistogram, m: &mut Model, op: u8, v: f64) {
+    if op == 0 { h.observe(v); m.sc += 1; m.ss += v; if v <= 1.0 { m.sb += 1; } }
+    else if op == 1 { l.observe(v); m.lc += 1; m.ls += v; if v <= 1.0 { m.lb += 1; } }
+    else if op == 2 { l.flush(); m.sc += m.lc; m.ss += m.ls; m.sb += m.lb; m.lc = 0; m.ls = 0.0; m.lb = 0; }
+    else if op == 3 {
+        let p = h.core.proto();
+        assert!(p.get_sample_count() == m.sc, "C03 snapshot count = all observations so far (none lost, none twice)");
+        assert!(p.get_sample_sum() == m.ss, "C03 snapshot sum = all observations so far");
+        assert!(p.get_bucket()[0].cumulative_count() == m.sb, "C03 snapshot bucket = all observations so far");
+        std::mem::forget(p);
+    }
+    else if op == 4 { assert!(h.get_sample_count() == m.sc, "C03 get_sample_count agrees with the observations"); }
+    else { assert!(h.get_sample_sum() == m.ss, "C03 get_sample_sum agrees with the observations"); }
+}
+/// a concrete operation sequence with symbolic observation values in {0,1,2,3}
+fn history(ops: &[u8]) {
     let h = hist1();
     let l = h.local();
-    // reference: shared totals and the pending local batch
-    let (mut sc, mut ss, mut sb) = (0u64, 0.0f64, 0u64);
-    let (mut lc, mut ls, mut lb) = (0u64, 0.0f64, 0u64);
-    let mut collects = 0u8;
-    let mut step = 0;
-    while step < n {
-        let op = any_u8_below(6);
-        let x = any_u8_below(4);
-        let v = x as f64;
-        match op {
-            0 => { h.observe(v); sc += 1; ss += v; if v <= 1.0 { sb += 1; } }
-            1 => { l.observe(v); lc += 1; ls += v; if v <= 1.0 { lb += 1; } }
-            2 => { l.flush(); sc += lc; ss += ls; sb += lb; lc = 0; ls = 0.0; lb = 0; }
-            3 => {
-                let p = h.core.proto();
-                collects += 1;
-                assert!(p.get_sample_count() == sc, "C03 snapshot count = all observations so far (none lost, none twice)");
-                assert!(p.get_sample_sum() == ss, "C03 snapshot sum = all observations so far");
-                assert!(p.get_bucket()[0].cumulative_count() == sb, "C03 snapshot bucket = all observations so far");
-                std::mem::forget(p);
-            }
-            4 => { assert!(h.get_sample_count() == sc, "C03 get_sample_count agrees with the observations"); }
-            _ => { assert!(h.get_sample_sum() == ss, "C03 get_sample_sum agrees with the observations"); }
-        }
-        step += 1;
+    let mut m = Model { sc: 0, ss: 0.0, sb: 0, lc: 0, ls: 0.0, lb: 0 };
+    let mut i = 0;
+    while i < ops.len() {
+        let v = any_u8_below(4) as f64;
+        apply(&h, &l, &mut m, ops[i], v);
+        i += 1;
     }
-    let p = h.core.proto();
-    assert!(p.get_sample_count() == sc && p.get_sample_sum() == ss && p.get_bucket()[0].cumulative_count() == sb,
-        "C03 final snapshot describes exactly all observations");
-    assert!(h.get_sample_count() == sc && h.get_sample_sum() == ss, "C03 get_sample_count / get_sample_sum agree with the final snapshot");
-    vcover!(collects >= 3 && sc >= 1, "c03.seq: three or more collections with data");
-    vcover!(collects >= 2 && sb >= 1 && lc == 0 && sc > sb, "c03.seq: data in and above the bucket across collections");
-    std::mem::forget(p);
     std::mem::forget(l);
     std::mem::forget(h);
 }
 
-/// Symbolic history of 4 operations (+ final collect) out of observe / local observe / local
-/// flush / collect / get_sample_count / get_sample_sum, values in {0,1,2,3}, 1 bucket.
-#[cfg_attr(kani, kani::proof, kani::unwind(6))]
-pub fn c03_sequential_history_4() {
-    history(4);
+/// Direct observations across three collections (both shards reused): obs, collect, obs, obs,
+/// collect, count, sum, collect.
+#[cfg_attr(kani, kani::proof, kani::unwind(10))]
+pub fn c03_sequence_direct_three_collects() {
+    history(&[0, 3, 0, 0, 3, 4, 5, 3]);
 }
-/// Symbolic history of 6 operations (+ final collect).
-#[cfg_attr(kani, kani::proof, kani::unwind(8))]
-pub fn c03_sequential_history_6() {
-    history(6);
+/// Batches: local obs x2, collect (batch not visible), flush, collect, obs, local obs, flush,
+/// collect, collect.
+#[cfg_attr(kani, kani::proof, kani::unwind(12))]
+pub fn c03_sequence_batches_three_collects() {
+    history(&[1, 1, 3, 2, 3, 0, 1, 2, 3, 3]);
+}
+/// Empty flush and getters between collects: flush, collect, obs, sum, collect, local obs, count,
+/// collect, flush, collect.
+#[cfg_attr(kani, kani::proof, kani::unwind(12))]
+pub fn c03_sequence_empty_flush_and_getters() {
+    history(&[2, 3, 0, 5, 3, 1, 4, 3, 2, 3]);
 }
 
 /// A quiescent collect never waits: with no observation in flight its first compare-exchange on
@@ -88,8 +88,9 @@ pub fn c03_quiescent_collect_returns_immediately() {
 
 pub fn dispatch(name: &str) -> Option<fn()> {
     Some(match name {
-        "c03_sequential_history_4" => c03_sequential_history_4,
-        "c03_sequential_history_6" => c03_sequential_history_6,
+        "c03_sequence_direct_three_collects" => c03_sequence_direct_three_collects,
+        "c03_sequence_batches_three_collects" => c03_sequence_batches_three_collects,
+        "c03_sequence_empty_flush_and_getters" => c03_sequence_empty_flush_and_getters,
         "c03_quiescent_collect_returns_immediately" => c03_quiescent_collect_returns_immediately,
         _ => return None,
     })
